@@ -27,6 +27,35 @@ CLAIMS = {
         "construction and drop elaboration, the mirdump driver's serialisation. Value-level clause 6 not decided.",
         ref="DESIGN.md §5 C02",
     ),
+    "C05": dict(
+        category="other",
+        technique="MIR unwind-edge ordering analysis: dominance of the shrinking store over destroying calls, "
+        "armed-local reachability on unwind edges, guard construction/drop dominance, must-pass-through in Drain::drop, "
+        "closed table of destructor sites",
+        text="Static decision, on drop-elaborated MIR with explicit unwind edges, of every ordering obligation that "
+        "makes a panicking element destructor harmless: size/start are shrunk before drop_range runs (PS1), explicit "
+        "destruction never targets a still-armed local (PS2), all panic guards exist before the first is dropped "
+        "(DROPPER1), Drain::drop destroys before restoring size and nothing can unwind afterwards (DRN1 d,e), and the "
+        "functions with direct destructor sites are the reviewed closed table. Holds for every N, layout, argument "
+        "and choice of panicking destructor because none of the obligations depends on them. The step from the "
+        "obligations to 'no second drop' is a short argument in DESIGN.md, not machine-checked, hence level other.",
+        note="Relies on INV1 (checked under C04) for the values stored to size/start; trusted: rustc MIR/drop "
+        "elaboration, driver serialisation, the reviewed table rules/tables.py.",
+        ref="DESIGN.md §5 C05",
+    ),
+    "C11": dict(
+        category="other",
+        technique="call-graph reachability of explicit panic sites with caller-context projection (difference "
+        "constraints), REQUIRES propagation for divisors/array indices (MOD1), must-no-write-before-panic paths",
+        text="Static decision of: which public entries can reach an explicit panic on a normal path, compared with the "
+        "documented table (PAN1); internal callers discharge asserting callees and build only non-panicking range "
+        "shapes (PAN2); documented panics precede any buffer write (PAN3); no Rem/Div by or element index into a zero "
+        "capacity is reachable from any public entry (MOD1); no Add/Mul on caller-supplied indices outside reviewed "
+        "sites (ARITH1). Not decided: implicit bounds/range checks (counted; infeasible under INV), loop termination.",
+        note="Assumes INV (checked by INV1 under C04) and core's RangeBounds impls; implicit slice/array bounds checks "
+        "and termination are not judged.",
+        ref="DESIGN.md §5 C11",
+    ),
 }
 
 
